@@ -388,67 +388,90 @@ def m_getitem(fn):
 
 
 def m_setitem(fn):
+    """two accepted layouts.
+    store-first (current):  slice: v1 = value; if copy: keep = set(...); v1 = (a if a in keep else COPY(a) for a in value);
+                                   vfinal = list(v1); super().__setitem__(idx, vfinal); for a in vfinal: a.lattice = self.lattice
+                            scalar: vfinal = <dup>; super().__setitem__(idx, vfinal); vfinal.lattice = self.lattice
+    lattice-first (before fix/c0816b): slice: vfinal = filter(_fixlat, v1) consumed by one trailing super().__setitem__;
+                            scalar: vfinal = <dup>; vfinal.lattice = self.lattice; trailing store"""
     p = params(fn)
     if p != ["self", "idx", "value", "copy"]:
         refuse(fn, "__setitem__%s: unexpected parameters" % p)
     b = body_of(fn)
-    if len(b) != 2 or not isinstance(b[0], ast.If) or U(b[0].test) != "isinstance(idx, slice)":
-        refuse(fn, "__setitem__: expected `if isinstance(idx, slice): ... else: ...; super().__setitem__(idx, vfinal)`")
-    keep = set(p) | GLOBALS
-    whole, _ = alpha(b, keep)
-    sl = [U(s) for s in whole[0].body]
-    sc = [U(s) for s in whole[0].orelse]
+    if len(b) not in (1, 2) or not isinstance(b[0], ast.If) or U(b[0].test) != "isinstance(idx, slice)":
+        refuse(fn, "__setitem__: expected `if isinstance(idx, slice): ... else: ...`")
+    whole, _ = alpha(b, set(p) | GLOBALS)
+    sl = list(whole[0].body)
+    sc = list(whole[0].orelse)
     f = {}
-    # slice branch
-    if len(sl) != 4:
-        refuse(b[0], "__setitem__: slice branch has %d statements" % len(sl))
-    fix = whole[0].body[0]
-    if not (isinstance(fix, ast.FunctionDef) and len(fix.args.args) == 1):
-        refuse(b[0], "__setitem__: expected the helper that fixes the lattice")
-    a = fix.args.args[0].arg
-    fname = fix.name
-    f["slice_setlat"] = sl[0] == "def %s(%s):\n    %s.lattice = self.lattice\n    return %s" % (fname, a, a, a)
-    if not f["slice_setlat"]:
-        refuse(fix, "__setitem__: the helper does not assign self.lattice and return the atom")
-    # v1 = value ; if copy: keep = set(...); v1 = (a if a in keep else COPY(a) for a in value) ; vfinal = filter(fix, v1)
-    asg = whole[0].body[1]
+    fixname = None
+    if sl and isinstance(sl[0], ast.FunctionDef):          # lattice-first layout: helper _fixlat
+        fix = sl[0]
+        a = fix.args.args[0].arg if len(fix.args.args) == 1 else None
+        if a is None or U(fix) != "def %s(%s):\n    %s.lattice = self.lattice\n    return %s" % (fix.name, a, a, a):
+            refuse(fix, "__setitem__: the helper does not assign self.lattice and return the atom")
+        fixname = fix.name
+        sl = sl[1:]
+    if len(sl) < 3:
+        refuse(b[0], "__setitem__: slice branch too short")
+    asg = sl[0]
     if not (isinstance(asg, ast.Assign) and U(asg.value) == "value"):
         refuse(asg, "__setitem__: expected `v1 = value`")
     v1 = U(asg.targets[0])
     f["nocopy_value"] = True
-    iff = whole[0].body[2]
+    iff = sl[1]
     if not (isinstance(iff, ast.If) and U(iff.test) == "copy" and not iff.orelse and len(iff.body) == 2):
         refuse(iff, "__setitem__: expected `if copy: keep = ...; v1 = (...)`")
     k = iff.body[0]
     kname = U(k.targets[0])
-    kt = U(k.value)
-    f["keep"] = "KAssignedSlice" if kt == "set(super().__getitem__(idx))" else "KOtherSet"
-    g = iff.body[1]
-    gt = U(g)
+    f["keep"] = "KAssignedSlice" if U(k.value) == "set(super().__getitem__(idx))" else "KOtherSet"
+    gt = U(iff.body[1])
     ok = False
     for v in ("v%d" % i for i in range(1, 40)):
-        if gt == "%s = (%s if %s in %s else COPY(%s) for %s in value)" % (v1, v, v, kname, v, v) or \
-           gt == "%s = [%s if %s in %s else COPY(%s) for %s in value]" % (v1, v, v, kname, v, v):
+        if gt in ("%s = (%s if %s in %s else COPY(%s) for %s in value)" % (v1, v, v, kname, v, v),
+                  "%s = [%s if %s in %s else COPY(%s) for %s in value]" % (v1, v, v, kname, v, v)):
             ok = True
-    f["copies_others"] = ok
     if not ok:
-        refuse(g, "__setitem__: the copying generator is not `a if a in keep else Atom(a) for a in value`")
-    fin = whole[0].body[3]
-    vfinal = U(fin.targets[0]) if isinstance(fin, ast.Assign) else None
-    if vfinal is None or U(fin.value) not in ("filter(%s, %s)" % (fname, v1), "[%s(%s) for %s in %s]" % (fname, "x", "x", v1)):
-        refuse(fin, "__setitem__: expected `vfinal = filter(_fixlat, v1)`")
+        refuse(iff.body[1], "__setitem__: the copying generator is not `a if a in keep else Atom(a) for a in value`")
+    f["copies_others"] = True
+    fin = sl[2]
+    if not isinstance(fin, ast.Assign):
+        refuse(fin, "__setitem__: expected the binding of the stored sequence")
+    vfinal = U(fin.targets[0])
+    tail_sl = [U(x) for x in sl[3:]]
+    store = "super().__setitem__(idx, %s)" % vfinal
+    if fixname is not None:
+        if U(fin.value) != "filter(%s, %s)" % (fixname, v1) or tail_sl:
+            refuse(fin, "__setitem__: expected `vfinal = filter(_fixlat, v1)` as the last statement of the slice branch")
+        f["slice_setlat"], f["slice_store_first"] = True, False
+    else:
+        if U(fin.value) not in ("list(%s)" % v1, "[%s for %s in %s]" % ("x", "x", v1)):
+            refuse(fin, "__setitem__: expected `vfinal = list(v1)`")
+        loop_ok = False
+        for v in ("v%d" % i for i in range(1, 40)):
+            if tail_sl == [store, "for %s in %s:\n    %s.lattice = self.lattice" % (v, vfinal, v)]:
+                loop_ok, f["slice_store_first"] = True, True
+            if tail_sl == ["for %s in %s:\n    %s.lattice = self.lattice" % (v, vfinal, v), store]:
+                loop_ok, f["slice_store_first"] = True, False
+        if not loop_ok:
+            refuse(b[0], "__setitem__: slice branch must store the list and assign self.lattice to every stored atom: %s" % tail_sl)
+        f["slice_setlat"] = True
     # scalar branch
-    if len(sc) != 2:
-        refuse(b[0], "__setitem__: scalar branch has %d statements" % len(sc))
-    s0 = whole[0].orelse[0]
-    if not (isinstance(s0, ast.Assign) and U(s0.targets[0]) == vfinal):
-        refuse(s0, "__setitem__: scalar branch does not bind the stored object")
-    f["scalar_dup"] = dupexpr(s0.value, "copy", "value", s0)
-    f["scalar_setlat"] = sc[1] == "%s.lattice = self.lattice" % vfinal
-    if not f["scalar_setlat"]:
-        refuse(whole[0].orelse[1], "__setitem__: scalar branch does not assign self.lattice to the stored object")
-    if U(whole[1]) != "super().__setitem__(idx, %s)" % vfinal:
-        refuse(b[1], "__setitem__: the list assignment is not `super().__setitem__(idx, vfinal)`")
+    if not sc or not (isinstance(sc[0], ast.Assign) and U(sc[0].targets[0]) == vfinal):
+        refuse(b[0], "__setitem__: scalar branch does not bind the stored object")
+    f["scalar_dup"] = dupexpr(sc[0].value, "copy", "value", sc[0])
+    rest = [U(x) for x in sc[1:]] + [U(x) for x in whole[1:]]
+    setlat = "%s.lattice = self.lattice" % vfinal
+    if fixname is not None and rest == [setlat, store]:
+        f["scalar_store_first"] = False
+    elif fixname is None and rest == [store, setlat]:
+        f["scalar_store_first"] = True
+    elif fixname is None and rest == [setlat, store]:
+        f["scalar_store_first"] = False
+    else:
+        refuse(b[0], "__setitem__: scalar branch / trailing store not understood: %s" % rest)
+    if fixname is None and len(whole) != 1:
+        refuse(b[-1], "__setitem__: unexpected statement after the branches")
     return default_of(fn, "copy"), f
 
 
@@ -664,7 +687,8 @@ def generate():
         ("sh_empty_shared_takes_instance_dict", "true"),
         ("sh_setitem_default", sd), ("sh_setitem_slice_keep", sf["keep"]), ("sh_setitem_slice_copies_others", B(sf["copies_others"])),
         ("sh_setitem_slice_setlat", B(sf["slice_setlat"])), ("sh_setitem_slice_nocopy_takes_value", B(sf["nocopy_value"])),
-        ("sh_setitem_scalar_dup", sf["scalar_dup"]), ("sh_setitem_scalar_setlat_before_store", B(sf["scalar_setlat"])),
+        ("sh_setitem_scalar_dup", sf["scalar_dup"]),
+        ("sh_setitem_scalar_store_before_setlat", B(sf["scalar_store_first"])), ("sh_setitem_slice_store_before_setlat", B(sf["slice_store_first"])),
         ("sh_add_copy_then_iadd", "true"), ("sh_iadd_flag", iadd_flag), ("sh_iadd_returns_self", "true"),
         ("sh_sub_identity_filter_then_copy", "true"), ("sh_isub_slice_assigns_filter", "true"),
         ("sh_mul_copy_empty_slice_then_iadd", "true"), ("sh_rmul_is_mul", "true"),
